@@ -105,7 +105,8 @@ class Explorer:
             elif p.get('rec') and p['rec'] in self.db.records and self.db.records[p['rec']].get('rect') and \
                     self.db.records[p['rec']].get('rect') == self.db.records.get(self.recq, {}).get('rect'):
                 # another instantiation of the same class template (converting copy/move): empty and non-empty
-                doms.append([('Bx', p['rec'], 'empty'), ('Bx', p['rec'], 'value')])
+                doms.append([('Bx', p['rec'], 'empty')] + [('Bx', p['rec'], 'value', i, c['params'][0]['t'])
+                                                           for i, c in enumerate(self.value_ctors(p['rec']))][:getattr(self.ad, 'max_other_ctors', 1)])
             elif p.get('enum'):
                 doms.append([('val', 0), ('val', 1), ('val', 2)])
             elif p.get('integral'):
@@ -130,7 +131,7 @@ class Explorer:
                 args.append(absx.Loc(('B',)))
                 b_used = c[1]
             elif c[0] == 'Bx':
-                self.make_other(w, c[1], c[2])
+                self.make_other(w, c[1], c[2], c[3] if len(c) > 3 else 0)
                 args.append(absx.Loc(('B',)))
             elif c[0] == 'A':
                 args.append(absx.Loc(('A',)))
@@ -144,7 +145,12 @@ class Explorer:
                 args.append(absx.UNKNOWN)
         return args, b_used
 
-    def make_other(self, w, recq, how):
+    def value_ctors(self, recq):
+        ctors = [f for f in members_of(self.db, recq) if f.get('ctor') and ('body' in f or f.get('inits'))]
+        return [f for f in ctors if len(f['params']) == 1 and not f.get('copyctor') and not f.get('movector') and
+                not f['params'][0].get('rec', '').startswith('nop::')]
+
+    def make_other(self, w, recq, how, which=0):
         for p in [p for p in list(w.cells) if p and p[0] == 'B']:
             del w.cells[p]
         for p in [p for p in list(w.storage) if p and p[0] == 'B']:
@@ -157,8 +163,7 @@ class Explorer:
             c = [f for f in ctors if f.get('defaultctor') and not f['params']]
             args = []
         else:
-            c = [f for f in ctors if len(f['params']) == 1 and not f.get('copyctor') and not f.get('movector') and
-                 not f['params'][0].get('rec', '').startswith('nop::')]
+            c = self.value_ctors(recq)[which:]
             args = [absx.Elem(w.fresh('ext'))]
         if not c:
             raise absx.Unsupported('cannot build a %s %s' % (how, recq))
@@ -235,7 +240,7 @@ class Explorer:
                         self.record('K', fn, obs_a == self.ad.empty_obs, '%s: %s: assigning an empty %s leaves %s' % (self.label, what, other.recq[:40], obs_a))
                     else:
                         self.record('K', fn, obs_a != self.ad.empty_obs, '%s: %s: assigning a non-empty %s leaves the destination empty' % (self.label, what, other.recq[:40]))
-                        if moved and fn['n'] == 'operator=':
+                        if moved and fn['n'] == 'operator=' and getattr(self.ad, 'move_assign_empties_source', True):
                             self.record('K', fn, obs_bx == self.ad.empty_obs, '%s: %s: moved-from source still reports %s' % (self.label, what, obs_bx))
                 except absx.Unsupported:
                     pass
